@@ -149,8 +149,40 @@ def make_configs(opts: dict):
         from aioquic.tls import CipherSuite
 
         scfg.cipher_suites = [CipherSuite[x] for x in opts["cipher_suites_server"]]
-    scfg.load_cert_chain(os.path.join(CERTS, opts.get("certfile", "ssl_cert.pem")), os.path.join(CERTS, "ssl_key.pem"))
+    if opts.get("cert_kind") == "ec":
+        # small self-signed P-256 certificate: the server's handshake flight fits in one datagram
+        cert, key, pem = _ec_cert()
+        scfg.certificate, scfg.certificate_chain, scfg.private_key = cert, [], key
+        ccfg.cafile = None
+        ccfg.cadata = pem
+    else:
+        scfg.load_cert_chain(os.path.join(CERTS, opts.get("certfile", "ssl_cert.pem")), os.path.join(CERTS, "ssl_key.pem"))
     return ccfg, scfg
+
+
+_EC_CACHE = []
+
+
+def _ec_cert():
+    if not _EC_CACHE:
+        import datetime
+
+        from cryptography import x509
+        from cryptography.hazmat.primitives import hashes, serialization
+        from cryptography.hazmat.primitives.asymmetric import ec
+
+        key = ec.generate_private_key(ec.SECP256R1())
+        name = x509.Name([x509.NameAttribute(x509.NameOID.COMMON_NAME, "localhost")])
+        now = datetime.datetime.now(datetime.timezone.utc)
+        cert = (
+            x509.CertificateBuilder().subject_name(name).issuer_name(name).public_key(key.public_key())
+            .serial_number(x509.random_serial_number()).not_valid_before(now - datetime.timedelta(days=1))
+            .not_valid_after(now + datetime.timedelta(days=10))
+            .add_extension(x509.SubjectAlternativeName([x509.DNSName("localhost")]), critical=False)
+            .sign(key, hashes.SHA256())
+        )
+        _EC_CACHE.append((cert, key, cert.public_bytes(serialization.Encoding.PEM)))
+    return _EC_CACHE[0]
 
 
 def apply_conn_opts(conn, opts, side):
